@@ -183,8 +183,13 @@ func (r *Report) Finish(verifDir string) int {
 		_ = os.WriteFile(replay, b, 0o644)
 		for _, o := range viol {
 			fmt.Printf("  violated: rule=%s construct=%q at %s [%s]: %s\n", o.Rule, o.Construct, o.Pos, o.Arch, o.Detail)
-			for _, w := range o.Witness {
-				fmt.Printf("      %s\n", w)
+			w := o.Witness
+			if len(w) > 14 {
+				fmt.Printf("      (witness path of %d blocks; last 14 shown, full path in the replay file)\n", len(w))
+				w = w[len(w)-14:]
+			}
+			for _, l := range w {
+				fmt.Printf("      %s\n", l)
 			}
 		}
 	}
